@@ -326,11 +326,9 @@ def font_spec_eval(fs: Dict[str, Any]) -> List[Tuple[Optional[str], Optional[F]]
         else:
             if builtin is not None:
                 nm = None
-                for (c, h) in builtin["puts"]:
+                for (c, tok) in ff_intent(builtin):
                     if c == code:
-                        nm = dec_name(h)
-                if builtin.get("notdef_loop") and nm is None:
-                    nm = ("s", ".notdef")
+                        nm = tok
             else:
                 nm, _ = spec_code_name(encname, diff, code)
             if nm is None:
@@ -414,8 +412,8 @@ def font_line(fs: Dict[str, Any]) -> str:
         if ff is None:
             ws += ["F", "none"]
         else:
-            ws += ["F", "1" if ff.get("notdef_loop") else "0", str(len(ff["puts"]))]
-            ws += ["%d:%s" % (c, name_arg(dec_name(h))) for c, h in ff["puts"]]
+            data_, l1 = type1_header(ff)
+            ws += ["F", str(l1), C.hx(data_)]
     if fs["fm"] is None:
         ws += ["M", "none"]
     else:
@@ -488,17 +486,91 @@ def cmap_bytes(entries) -> bytes:
     return b"".join(out)
 
 
+T1_SEPS = [b" ", b"\n", b"\t", b"\r\n", b"  ", b"\x0c", b" \n "]
+T1_EXTRAS = [b"/FontBBox {0 -200 1000 800} readonly def\n",
+             b"/Private 5 dict dup begin /BlueValues [-10 0 500 510] def end\n",
+             b"(put \\) put) pop\n", b"<48656C6C6F> pop\n", b"0.001 0 0 0.001 0 0 6 array astore pop\n",
+             b"<< /A 1 /B [1 2] >> pop\n", b"/put /notakeyword def\n", b"[ 1 2 3 ] pop\n", b"/PaintType 0 def\n"]
+
+
+def ff_entry_kind(e) -> str:
+    return e[2] if len(e) > 2 else "dup"
+
+
+def ff_tie_only(ff) -> bool:
+    """Headers that are malformed on purpose (or cut inside a token by Length1): model/implementation tie only."""
+    return bool(ff.get("malformed")) or ff.get("l1") == "cut"
+
+
+def ff_intent(ff) -> List[Tuple[int, Any]]:
+    """What the header MEANS (independent of any tokeniser): the (code, name) assignments in order.
+    The `.notdef` loop is scanned by pdfminer as one put under key 1 (harmless: `.notdef` has no value)."""
+    out: List[Tuple[int, Any]] = []
+    if ff.get("notdef_loop"):
+        out.append((1, ("s", ".notdef")))
+    for e in ff["puts"]:
+        k = ff_entry_kind(e)
+        if k in ("dup", "nodup", "proc"):
+            out.append((e[0], dec_name(e[1])))
+        elif k == "true":
+            out.append((1, dec_name(e[1])))
+        elif k == "false":
+            out.append((0, dec_name(e[1])))
+        # "real" (a real-number key) and "str" (a string instead of a name) assign nothing
+    if ff.get("tail") and ff.get("l1") == "beyond":
+        out += [(65, ("s", "Z")), (66, ("s", "Y"))]
+    return out
+
+
+def t1_name(h: str, escape: bool) -> bytes:
+    b = bytes.fromhex(h)
+    n = W.ser_name(b)
+    if escape and b and b[0] in W.REGULAR:
+        n = b"/#%02X" % b[0] + W.ser_name(b[1:])[1:]
+    return n
+
+
 def type1_header(ff) -> Tuple[bytes, int]:
-    out = [b"%!PS-AdobeFont-1.0: Synth 001.001\n11 dict begin\n/FontName /Synth def\n/Encoding 256 array\n"]
+    sep = T1_SEPS[ff.get("sep", 0) % len(T1_SEPS)]
+    esc = bool(ff.get("escape"))
+    out = [b"%!PS-AdobeFont-1.0: Synth 001.001\n"]
+    if ff.get("malformed") == "put-underflow":
+        out.append(b"put\n")
+    out.append(b"11 dict begin\n/FontName /Synth def\n/Encoding 256 array\n")
     if ff.get("notdef_loop"):
         out.append(b"0 1 255 {1 index exch /.notdef put} for\n")
-    for c, h in ff["puts"]:
-        out.append(b"dup %d %s put\n" % (c, W.ser_name(bytes.fromhex(h))))
+    for i, e in enumerate(ff["puts"]):
+        k = ff_entry_kind(e)
+        nm = t1_name(e[1], esc and i % 2 == 0)
+        if k == "dup":
+            toks = [b"dup", b"%d" % e[0], nm, b"put"]
+        elif k == "nodup":
+            toks = [b"%d" % e[0], nm, b"put"]
+        elif k == "proc":
+            toks = [b"{", b"%d" % e[0], nm, b"put", b"}", b"pop"]
+        elif k in ("true", "false"):
+            toks = [b"dup", k.encode(), nm, b"put"]
+        elif k == "real":
+            toks = [b"dup", b"%d.0" % e[0], nm, b"put"]
+        else:  # "str"
+            toks = [b"dup", b"%d" % e[0], W.ser_string(bytes.fromhex(e[1])), b"put"]
+        out.append(sep.join(toks) + b"\n")
+        if ff.get("comments") and i % 3 == 0:
+            out.append(b"% dup 70 /Z put\n")
+        if ff.get("extras") and i % 4 == 1:
+            out.append(T1_EXTRAS[(i + ff.get("sep", 0)) % len(T1_EXTRAS)])
+    if ff.get("malformed") == "odd-dict":
+        out.append(b"<< /A >>\n")
     out.append(b"readonly def\ncurrentdict end\ncurrentfile eexec\n")
     head = b"".join(out)
     # bytes after Length1 must not be read as part of the clear-text header
     tail = b"dup 65 /Z put\ndup 66 /Y put\n" if ff.get("tail") else b""
-    return head + tail, len(head)
+    l1 = len(head)
+    if ff.get("l1") == "beyond":
+        l1 = len(head) + len(tail) + 10
+    elif ff.get("l1") == "cut":
+        l1 = max(0, len(head) - 25)
+    return head + tail, l1
 
 
 def font_objects(fs: Dict[str, Any], n0: int) -> Tuple[Dict[int, Any], int]:
@@ -963,7 +1035,24 @@ def gen_font(rng, force: Optional[str] = None) -> Tuple[Dict[str, Any], List[str
                 c0 = rng.choice(puts)[0]
                 puts.append([c0, gen_component(rng, rng.choice(["unknown", "list"]))[0].encode().hex()])
                 kinds.append("ff:reassign")
-            desc["ff"] = {"puts": puts, "notdef_loop": rng.random() < 0.5, "tail": rng.random() < 0.5}
+            for e in puts:
+                if rng.random() < 0.25:
+                    e.append(rng.choice(["nodup", "proc", "true", "false", "real", "str", "nodup", "proc"]))
+                    kinds.append("ff:entry-" + e[2])
+            ff: Dict[str, Any] = {"puts": puts, "notdef_loop": rng.random() < 0.5, "tail": rng.random() < 0.5,
+                                  "sep": rng.randint(0, len(T1_SEPS) - 1), "comments": rng.random() < 0.4,
+                                  "extras": rng.random() < 0.4, "escape": rng.random() < 0.3}
+            r1 = rng.random()
+            if r1 < 0.12:
+                ff["l1"] = "beyond"
+                kinds.append("ff:length1-beyond")
+            elif r1 < 0.18:
+                ff["l1"] = "cut"
+                kinds.append("ff:length1-cut")
+            if rng.random() < 0.08:
+                ff["malformed"] = rng.choice(["put-underflow", "odd-dict"])
+                kinds.append("ff:malformed-" + ff["malformed"])
+            desc["ff"] = ff
             kinds.append("ff:fontfile" + (":used" if fs["enc"] is None and not std14 else ":ignored"))
         fs["desc"] = desc
     else:
@@ -1169,12 +1258,24 @@ def font_failure_tags(fs: Dict[str, Any], code: int, what: str, kinds: List[str]
             "skewed": bool(fs["fm"]) and fs["fm"][2] != "0", "kinds": sorted(set(kinds))}
 
 
+def font_tie_only(fs: Dict[str, Any]) -> bool:
+    """Fonts whose embedded header is malformed on purpose and is actually read: no property oracle."""
+    d = data()
+    desc = fs.get("desc")
+    if fs["subtype"] == "Type3" or fs["enc"] is not None or not desc or not desc.get("ff"):
+        return False
+    bf = bytes.fromhex(fs["basefont"]).decode("utf-8", "replace") if fs.get("basefont") is not None else "unknown"
+    return bf not in d["fm"] and ff_tie_only(desc["ff"])
+
+
 def font_first_bad(fs: Dict[str, Any], got: Any) -> Optional[Tuple[int, str, Any, Any]]:
     """First code where the implementation's (text, adv) breaks the property; None when fine."""
     if isinstance(got, str):
-        return (-1, "exception", "256 glyphs", got)
+        return None if font_tie_only(fs) else (-1, "exception", "256 glyphs", got)
     if len(got) != 256:
         return (-1, "count", 256, len(got))
+    if font_tie_only(fs):
+        return None
     exp = font_spec_eval(fs)
     for code in range(256):
         et, ew = exp[code]
@@ -1297,8 +1398,11 @@ def compare_fonts_with_driver(ctx: C.Ctx, lines: List[str], meta: List[Any]) -> 
             model = parse_font_reply(m_out)
             if op == "font":
                 if isinstance(got, str) or isinstance(model, str):
-                    if not (isinstance(got, str) and isinstance(model, str) and model.startswith("E")):
+                    if not (isinstance(got, str) and isinstance(model, str) and model.startswith("E ")
+                            and got == "EXC:" + model[2:]):
                         ctx.disagree("font", {"font": fs}, got if isinstance(got, str) else "256 glyphs", m_out[:120])
+                    else:
+                        ctx.branch("font:exception-agreed:" + model[2:])
                     continue
                 for code in range(min(len(got), 256)):
                     gt, gw = got[code]
@@ -1308,6 +1412,8 @@ def compare_fonts_with_driver(ctx: C.Ctx, lines: List[str], meta: List[Any]) -> 
                                      "%s|%s" % (cps(mt), C.frac_str(mw)))
                         break
             else:
+                if font_tie_only(fs):
+                    continue
                 mine = font_spec_eval(fs)
                 if isinstance(model, str):
                     ctx.disagree("spec-twin:font", {"font": fs}, "256 cells", m_out[:120])
@@ -1329,9 +1435,92 @@ def run_fonts(ctx: C.Ctx) -> None:
                   "tu": None, "fc": None, "widths": None, "desc": None,
                   "fm": ["1/1000", "0", "0", "1/1000", "0", "0"] if sub == "Type3" else None}
             fonts.append((fs, ["font:plain"]))
-    for _ in range(ctx.n(900, 12000)):
+    for _ in range(ctx.n(750, 10000)):
         fonts.append(gen_font(rng))
+    # fonts whose built-in encoding (the bytes of the embedded Type 1 header) is what decides the text
+    n_builtin = 0
+    while n_builtin < ctx.n(200, 3000):
+        fs, kinds = gen_font(rng, force=rng.choice(["Type1", "TrueType", "MMType1", "absent"]))
+        if not (fs["desc"] and fs["desc"].get("ff")):
+            continue
+        fs["enc"] = None
+        fs.pop("emptydiff", None)
+        fs.pop("enc_indirect", None)
+        if fs["basefont"] is not None and bytes.fromhex(fs["basefont"]).decode() in data()["fm"]:
+            fs["basefont"] = rng.choice(OTHER_BASEFONTS).encode().hex()
+        kinds = [k for k in kinds if not k.startswith(("enc:", "diff:", "font:std14"))] + ["ff:builtin-batch"]
+        fonts.append((fs, kinds))
+        n_builtin += 1
     check_fonts(ctx, fonts)
+
+
+def impl_t1puts(data_: bytes) -> str:
+    """The (cid, name) results of Type1FontHeaderParser's `put` keywords, before the name lookup."""
+    from pdfminer.pdffont import Type1FontHeaderParser
+    from pdfminer.psparser import PSEOF
+    p = Type1FontHeaderParser(io.BytesIO(data_))
+    res = []
+    try:
+        while True:
+            try:
+                (cid, name) = p.nextobject()
+            except PSEOF:
+                break
+            res.append((int(cid), name))
+    except Exception as e:  # noqa: BLE001
+        return "E " + type(e).__name__
+    out = []
+    for cid, name in res:
+        try:
+            name.encode("utf-8")
+            ok = not (name.startswith("b'") or name.startswith('b"'))
+        except UnicodeEncodeError:
+            ok = False
+        out.append("%d:%s" % (cid, name_arg(("s", name)) if ok else "b"))
+    return " ".join(out) or "-"
+
+
+def run_t1puts(ctx: C.Ctx) -> None:
+    """Tokeniser + stack-machine path over header BYTES: generated headers and byte-level damage of them."""
+    rng = ctx.rng
+    lines, mine = [], []
+    for i in range(ctx.n(300, 6000)):
+        fs, _ = gen_font(rng, force="Type1")
+        while not (fs["desc"] and fs["desc"].get("ff")):
+            fs, _ = gen_font(rng, force="Type1")
+        ff = fs["desc"]["ff"]
+        data_, l1 = type1_header(ff)
+        data_ = data_[:l1]
+        kind = "asis"
+        if i % 3 == 1 and data_:
+            # damage: drop / duplicate / replace a few bytes (unbalanced brackets, split tokens, stray `put`s)
+            b = bytearray(data_)
+            for _ in range(rng.randint(1, 4)):
+                pos = rng.randrange(len(b))
+                r = rng.random()
+                if r < 0.4:
+                    del b[pos]
+                elif r < 0.7:
+                    b[pos:pos] = rng.choice([b"}", b"{", b"]", b"[", b">>", b"<<", b" put ", b"(", b")", b"%", b"/", b"<", b">"])
+                else:
+                    b[pos] = rng.choice(b" \n{}[]()<>/%#0aZ")
+                if not b:
+                    break
+            data_ = bytes(b)
+            kind = "damaged"
+        elif i % 3 == 2:
+            kind = "names-with-bytes"
+            data_ = data_.replace(b"/Synth", rng.choice([b"/\xff\xfe", b"/A#FFB", b"/caf\xc3\xa9", b"/#41#42"]))
+            data_ += b"dup 7 " + rng.choice([b"/\xff", b"/x#C3#A9", b"/#e9", b"/\xf0\x9f\x98\x80", b"/\xed\xa0\x80"]) + b" put\n"
+        impl = impl_t1puts(data_)
+        ctx.case(("t1puts", data_), True, branch="t1puts:" + kind)
+        ctx.branch("t1puts->" + (impl if impl.startswith("E ") else "ok"))
+        lines.append("t1puts " + C.hx(data_))
+        mine.append(impl)
+    if ctx.driver is not None:
+        for ln, a, b in zip(lines, mine, ctx.driver.ask(lines)):
+            if a != b:
+                ctx.disagree("t1puts", {"header": ln[7:][:400]}, a[:200], b[:200])
 
 
 def run_utf16(ctx: C.Ctx) -> None:
@@ -1495,7 +1684,7 @@ def run_tables(ctx: C.Ctx) -> None:
     d = data()
     lines = ["tab.glyphcount", "tab.enccount", "tab.facts"]
     exp = [str(len(d["gl"])), str(len(d["enc"])),
-           "glyph-values-nonempty=true rows-resolve=true rows-judged=true empty-name-absent=true"]
+           "glyph-values-nonempty=true rows-resolve=true rows-judged=true"]
     for k in sorted(d["fm"]):
         lines.append("tab.metrics " + name_arg(("s", k)))
         exp.append(" ".join("%x:%d" % (ord(ch), w) for ch, w in sorted(d["fm"][k].items())) or "-")
@@ -1545,6 +1734,7 @@ def run(ctx: C.Ctx) -> None:
     run_refdata(ctx)
     run_tables(ctx)
     run_utf16(ctx)
+    run_t1puts(ctx)
     run_names(ctx)
     run_encodings(ctx)
     run_fonts(ctx)
